@@ -18,7 +18,100 @@ func libModel(full string) libFn {
 	if libTable == nil {
 		initLib()
 	}
-	return libTable[full]
+	f := libTable[full]
+	if f == nil {
+		return nil
+	}
+	if strings.HasPrefix(full, u256Pfx) || strings.HasPrefix(full, "github.com/holiman/uint256.") {
+		return func(vc *VC, fr *Frame, st *State, a []Val, at []types.Type, rt types.Type, pos token.Pos) Val {
+			if vc.mode == ModeMath {
+				if m := u256Math[strings.TrimPrefix(full, u256Pfx)]; m != nil {
+					vc.usedLib("uint256." + strings.TrimPrefix(full, u256Pfx) + " (math)")
+					return m(vc, fr, st, a, at, rt, pos)
+				}
+				vc.note("uint256 method " + full + " has no math-mode model: result abstracted")
+				if len(a) > 0 && a[0].P != nil && isPointer(rt) {
+					nv := vc.declFresh("u256abs", sortInt)
+					vc.assume(st, mk(fmt.Sprintf("(and (<= 0 %s) (< %s %s))", nv.S, nv.S, pow2(256)), sortBool))
+					vc.storePlace(st, a[0].P, nv)
+					return a[0]
+				}
+				return vc.freshVal(st, "u256abs", rt)
+			}
+			return f(vc, fr, st, a, at, rt, pos)
+		}
+	}
+	return f
+}
+
+// math-mode models of the uint256 methods the gas arithmetic uses (values are Int in [0, 2^256)).
+var u256Math = map[string]libFn{
+	"Uint64WithOverflow": func(vc *VC, fr *Frame, st *State, a []Val, at []types.Type, rt types.Type, pos token.Pos) Val {
+		vc.nilChecks(fr, st, pos, a[0])
+		z := vc.ld(st, a[0])
+		return Val{Tup: []Val{{T: mk(fmt.Sprintf("(mod %s %s)", z.S, pow2(64)), sortInt)}, {T: mk(fmt.Sprintf("(>= %s %s)", z.S, pow2(64)), sortBool)}}}
+	},
+	"Uint64": func(vc *VC, fr *Frame, st *State, a []Val, at []types.Type, rt types.Type, pos token.Pos) Val {
+		vc.nilChecks(fr, st, pos, a[0])
+		z := vc.ld(st, a[0])
+		return Val{T: mk(fmt.Sprintf("(mod %s %s)", z.S, pow2(64)), sortInt)}
+	},
+	"IsUint64": func(vc *VC, fr *Frame, st *State, a []Val, at []types.Type, rt types.Type, pos token.Pos) Val {
+		vc.nilChecks(fr, st, pos, a[0])
+		z := vc.ld(st, a[0])
+		return Val{T: mk(fmt.Sprintf("(< %s %s)", z.S, pow2(64)), sortBool)}
+	},
+	"IsZero": func(vc *VC, fr *Frame, st *State, a []Val, at []types.Type, rt types.Type, pos token.Pos) Val {
+		vc.nilChecks(fr, st, pos, a[0])
+		return Val{T: tEq(vc.ld(st, a[0]), mk("0", sortInt))}
+	},
+	"Sign": func(vc *VC, fr *Frame, st *State, a []Val, at []types.Type, rt types.Type, pos token.Pos) Val {
+		vc.nilChecks(fr, st, pos, a[0])
+		z := vc.ld(st, a[0])
+		return Val{T: mk(fmt.Sprintf("(ite (= %s 0) 0 (ite (>= %s %s) (- 1) 1))", z.S, z.S, pow2(255)), sortInt)}
+	},
+	"BitLen": func(vc *VC, fr *Frame, st *State, a []Val, at []types.Type, rt types.Type, pos token.Pos) Val {
+		vc.nilChecks(fr, st, pos, a[0])
+		z := vc.ld(st, a[0])
+		r := vc.declFresh("bitlen", sortInt)
+		vc.assume(st, mk(fmt.Sprintf("(and (<= 0 %s) (<= %s 256) (= (= %s 0) (= %s 0)))", r.S, r.S, r.S, z.S), sortBool))
+		return Val{T: r}
+	},
+	"Lt": func(vc *VC, fr *Frame, st *State, a []Val, at []types.Type, rt types.Type, pos token.Pos) Val {
+		vc.nilChecks(fr, st, pos, a[0], a[1])
+		return Val{T: mk(app("<", vc.ld(st, a[0]), vc.ld(st, a[1])), sortBool)}
+	},
+	"Gt": func(vc *VC, fr *Frame, st *State, a []Val, at []types.Type, rt types.Type, pos token.Pos) Val {
+		vc.nilChecks(fr, st, pos, a[0], a[1])
+		return Val{T: mk(app(">", vc.ld(st, a[0]), vc.ld(st, a[1])), sortBool)}
+	},
+	"Eq": func(vc *VC, fr *Frame, st *State, a []Val, at []types.Type, rt types.Type, pos token.Pos) Val {
+		vc.nilChecks(fr, st, pos, a[0], a[1])
+		return Val{T: tEq(vc.ld(st, a[0]), vc.ld(st, a[1]))}
+	},
+	"LtUint64": func(vc *VC, fr *Frame, st *State, a []Val, at []types.Type, rt types.Type, pos token.Pos) Val {
+		vc.nilChecks(fr, st, pos, a[0])
+		return Val{T: mk(app("<", vc.ld(st, a[0]), a[1].T), sortBool)}
+	},
+	"GtUint64": func(vc *VC, fr *Frame, st *State, a []Val, at []types.Type, rt types.Type, pos token.Pos) Val {
+		vc.nilChecks(fr, st, pos, a[0])
+		return Val{T: mk(app(">", vc.ld(st, a[0]), a[1].T), sortBool)}
+	},
+	"SetUint64": func(vc *VC, fr *Frame, st *State, a []Val, at []types.Type, rt types.Type, pos token.Pos) Val {
+		vc.nilChecks(fr, st, pos, a[0])
+		vc.storePlace(st, a[0].P, a[1].T)
+		return a[0]
+	},
+	"Clear": func(vc *VC, fr *Frame, st *State, a []Val, at []types.Type, rt types.Type, pos token.Pos) Val {
+		vc.nilChecks(fr, st, pos, a[0])
+		vc.storePlace(st, a[0].P, mk("0", sortInt))
+		return a[0]
+	},
+	"Set": func(vc *VC, fr *Frame, st *State, a []Val, at []types.Type, rt types.Type, pos token.Pos) Val {
+		vc.nilChecks(fr, st, pos, a[0], a[1])
+		vc.storePlace(st, a[0].P, vc.ld(st, a[1]))
+		return a[0]
+	},
 }
 
 // libTrusted lists every library model (they are trusted contracts; reported in the evidence).
@@ -299,6 +392,34 @@ func initLib() {
 		z := vc.ld(st, a[0])
 		v := vc.newObject(st, derefType(rt), mk("(bv2nat "+z.S+")", sortInt))
 		return v
+	}
+
+	// ---- math/bits
+	libTable["math/bits.Add64"] = func(vc *VC, fr *Frame, st *State, a []Val, at []types.Type, rt types.Type, pos token.Pos) Val {
+		vc.usedLib("bits.Add64")
+		if vc.mode != ModeBV {
+			w := vc.define("add65", mk(fmt.Sprintf("(+ %s %s %s)", a[0].T.S, a[1].T.S, a[2].T.S), sortInt))
+			return Val{Tup: []Val{{T: mk(fmt.Sprintf("(mod %s %s)", w.S, pow2(64)), sortInt)}, {T: mk(fmt.Sprintf("(div %s %s)", w.S, pow2(64)), sortInt)}}}
+		}
+		w := vc.define("add65", mk(fmt.Sprintf("(bvadd ((_ zero_extend 1) %s) ((_ zero_extend 1) %s) ((_ zero_extend 1) %s))", a[0].T.S, a[1].T.S, a[2].T.S), sortBV(65)))
+		return Val{Tup: []Val{{T: mk("((_ extract 63 0) "+w.S+")", sortBV(64))}, {T: mk("((_ zero_extend 63) ((_ extract 64 64) "+w.S+"))", sortBV(64))}}}
+	}
+	libTable["math/bits.Sub64"] = func(vc *VC, fr *Frame, st *State, a []Val, at []types.Type, rt types.Type, pos token.Pos) Val {
+		vc.usedLib("bits.Sub64")
+		if vc.mode != ModeBV {
+			return vc.freshVal(st, "bits", rt)
+		}
+		w := vc.define("sub65", mk(fmt.Sprintf("(bvsub (bvsub ((_ zero_extend 1) %s) ((_ zero_extend 1) %s)) ((_ zero_extend 1) %s))", a[0].T.S, a[1].T.S, a[2].T.S), sortBV(65)))
+		return Val{Tup: []Val{{T: mk("((_ extract 63 0) "+w.S+")", sortBV(64))}, {T: mk("((_ zero_extend 63) ((_ extract 64 64) "+w.S+"))", sortBV(64))}}}
+	}
+	libTable["math/bits.Mul64"] = func(vc *VC, fr *Frame, st *State, a []Val, at []types.Type, rt types.Type, pos token.Pos) Val {
+		vc.usedLib("bits.Mul64")
+		if vc.mode != ModeBV {
+			w := vc.define("mul128", mk(fmt.Sprintf("(* %s %s)", a[0].T.S, a[1].T.S), sortInt))
+			return Val{Tup: []Val{{T: mk(fmt.Sprintf("(div %s %s)", w.S, pow2(64)), sortInt)}, {T: mk(fmt.Sprintf("(mod %s %s)", w.S, pow2(64)), sortInt)}}}
+		}
+		w := vc.define("mul128", mk(fmt.Sprintf("(bvmul ((_ zero_extend 64) %s) ((_ zero_extend 64) %s))", a[0].T.S, a[1].T.S), sortBV(128)))
+		return Val{Tup: []Val{{T: mk("((_ extract 127 64) "+w.S+")", sortBV(64))}, {T: mk("((_ extract 63 0) "+w.S+")", sortBV(64))}}}
 	}
 
 	// ---- math/big.Int (values are mathematical integers in component P:math/big.Int)
